@@ -11,7 +11,6 @@ from collections import Counter
 from copy import deepcopy
 from functools import reduce
 from itertools import count
-from textwrap import dedent
 from types import TracebackType
 
 from .selector import Element, check_element
@@ -1179,7 +1178,7 @@ def transform(fn, proceed, to_instrument=True, set_conformer=True):
         to_instrument = [_GENERIC]
 
     try:
-        src = dedent(inspect.getsource(fn))
+        src = inspect.getsource(fn)
     except OSError:
         raise TypeError(
             f"transform() requires the source code of the function (got {fn})"
@@ -1201,8 +1200,15 @@ def transform(fn, proceed, to_instrument=True, set_conformer=True):
     # Perform the transform
     filename = inspect.getsourcefile(fn)
     try:
-        tree = ast.parse(src, filename)
+        # The source of a method or nested function is indented. It is parsed
+        # as the body of an if statement rather than dedented: dedenting would
+        # also change the contents of multi-line string literals.
+        indented = src[:1] in (" ", "\t")
+        tree = ast.parse("if 1:\n" + src if indented else src, filename)
         tree = tree.body[0]
+        if indented:
+            tree = tree.body[0]
+            ast.increment_lineno(tree, -1)
     except (SyntaxError, IndexError):
         tree = None
     if not isinstance(tree, ast.FunctionDef):
